@@ -188,22 +188,38 @@ def model_args(call: int, args: list) -> list[int]:
 
 
 # ------------------------------------------------------------------ installations for the tie
-def tie_installation(gen: int, modes: list[bool], fans: list[bool], limits: tuple) -> console.Installation:
-    """one AC, three zones: 0 = sensor + turbo, 1 = no sensor, 2 = sensor, no turbo"""
-    ac = console.AcSpec(1 if gen == 5 else 0, "Ünit", modes, fans, limits, start=0, count=3,
-                        groups={0, 1, 2} if gen == 4 else None)
-    inst = console.Installation(gen, [ac], {0: "Living", 1: "Küche", 2: "Bed"})
+def tie_installation(gen: int, modes: list[bool], fans: list[bool], limits: tuple, ac_number=None, zone_base: int = 0) -> console.Installation:
+    """one AC (any AC number), zones zone_base + 0 = sensor + turbo, + 1 = no sensor, + 2 = sensor, no turbo"""
+    nz = 3 if gen == 4 else 5
+    b = zone_base
+    if ac_number is None:
+        ac_number = 1 if gen == 5 else 0
+    ac = console.AcSpec(ac_number, "Ünit", modes, fans, limits, start=b, count=nz,
+                        groups={b, b + 1, b + 2} if gen == 4 else None)
+    names = {b: "Living", b + 1: "Küche", b + 2: "Bed"}
+    if gen == 5:
+        names.update({b + 3: "Odd 3", b + 4: "Odd 4"})
+    inst = console.Installation(gen, [ac], names)
     zs = inst.m["zstat"]
+    return _renumber(inst, gen, b, zs)
+
+
+def _renumber(inst, gen, b, zs):
     if gen == 4:
-        inst.zone_status[1] = zs.GroupStatusData(1, zs.GroupPowerState.OFF, zs.GroupControlMethod.DAMPER, False, False, False,
+        inst.zone_status[b + 1] = zs.GroupStatusData(b + 1, zs.GroupPowerState.OFF, zs.GroupControlMethod.DAMPER, False, False, False,
                                                  zs.SensorBatteryStatus.NORMAL, None, 40, None)
-        inst.zone_status[2] = zs.GroupStatusData(2, zs.GroupPowerState.ON, zs.GroupControlMethod.TEMPERATURE, True, False, True,
+        inst.zone_status[b + 2] = zs.GroupStatusData(b + 2, zs.GroupPowerState.ON, zs.GroupControlMethod.TEMPERATURE, True, False, True,
                                                  zs.SensorBatteryStatus.LOW, 19.0, 55, 21)
     else:
-        inst.zone_status[1] = zs.ZoneStatusData(1, zs.ZonePowerState.OFF, False, zs.ZoneControlMethod.DAMPER, False,
+        inst.zone_status[b + 1] = zs.ZoneStatusData(b + 1, zs.ZonePowerState.OFF, False, zs.ZoneControlMethod.DAMPER, False,
                                                 zs.SensorBatteryStatus.NORMAL, None, 40, None)
-        inst.zone_status[2] = zs.ZoneStatusData(2, zs.ZonePowerState.ON, True, zs.ZoneControlMethod.TEMPERATURE, True,
+        inst.zone_status[b + 2] = zs.ZoneStatusData(b + 2, zs.ZonePowerState.ON, True, zs.ZoneControlMethod.TEMPERATURE, True,
                                                 zs.SensorBatteryStatus.LOW, 19.0, 55, 21.5)
+        # reports a console may send although they look odd: no sensor but a set-point byte, sensor but no set-point
+        inst.zone_status[b + 3] = zs.ZoneStatusData(b + 3, zs.ZonePowerState.ON, False, zs.ZoneControlMethod.DAMPER, False,
+                                                zs.SensorBatteryStatus.NORMAL, None, 70, 22.0)
+        inst.zone_status[b + 4] = zs.ZoneStatusData(b + 4, zs.ZonePowerState.TURBO, False, zs.ZoneControlMethod.TEMPERATURE, True,
+                                                zs.SensorBatteryStatus.NORMAL, 23.5, 100, None)
     return inst
 
 
